@@ -759,7 +759,11 @@ func (s *Sim) place(c *Call, step *StepObs) {
 			if len(items) > 0 {
 				h := s.taskObs(items[0])
 				if h.Hook == c.Hook && len(h.Ctxs) > 0 && h.Ctxs[0].Kind == "Sync" {
-					if _, busy := s.open[0]; !busy {
+					s.boMu.Lock()
+					_, mainDelayed := s.delayed[0]
+					s.boMu.Unlock()
+					// a main queue waiting in a back-off delay cannot have started this execution
+					if _, busy := s.open[0]; !busy && !(mainDelayed && !s.elapsing[0]) {
 						cand = 0
 					}
 				}
@@ -827,6 +831,18 @@ func (s *Sim) observe(step *StepObs) {
 		}
 	}
 	sort.Ints(step.Unlocked)
+}
+
+func (s *Sim) monitorUnlocked(id string) bool {
+	m := s.Op.KubeEventsManager.GetMonitor(id)
+	if m == nil {
+		return false
+	}
+	en, flags := kubeeventsmanager.VerifEventsEnabled(m)
+	for _, f := range flags {
+		en = en && f
+	}
+	return en
 }
 
 func (s *Sim) sentinelTick() {
@@ -916,6 +932,11 @@ func (s *Sim) Do(a Action) StepObs {
 	case "KubeEv":
 		if s.booted {
 			id := s.monitorIdOf(a.Mon)
+			// the action is "an UNLOCKED monitor emits an event": a locked monitor keeps its events
+			// to itself (explicit / shrunk action lists may name one)
+			if id != "" && !s.monitorUnlocked(id) {
+				id = ""
+			}
 			if id != "" {
 				obj := &unstructured.Unstructured{Object: map[string]interface{}{
 					"apiVersion": "v1", "kind": "ConfigMap",
